@@ -531,7 +531,7 @@ theorem Valid.abs_lo_le {t : TwoFloat} (ht : t.Valid) : |t.lo.toInt| ≤ |t.hi.t
   · have hV : t.V = 0 := ht.V_zero_iff.2 h0
     have : t.lo.toInt = 0 := by unfold V at hV; omega
     rw [this, h0]
-  · obtain ⟨e, hd, hl⟩ := valid_ulp ht
+  · obtain ⟨e, hd, hl⟩ := C08.valid_ulp ht
     have h1 : (2 : Int) ^ e ≤ |t.hi.toInt| := by
       have := Int.le_of_dvd (abs_pos.2 h0) ((dvd_abs _ _).2 hd)
       exact this
@@ -616,5 +616,271 @@ theorem sub_tt_isV_hi_cancel {x y : TwoFloat} {xh xl yl : Int} (hx : x.IsV xh xl
     (by rw [sub_self]; exact abs_zero_le_maxFin) hT hTm (by rw [e, e']; exact hTm)
     (by rw [e, e', sub_self, sub_zero]; exact hT) (by rw [e, e', sub_self, sub_zero]; exact hTm)
   rwa [e, e', sub_self] at this
+
+/-! ## scaling data for a valid pair and a factor / divisor `±2^k` -/
+
+/-- `(H, L)` are the word values of a normalised pair in range -/
+abbrev NormPair (H L : Int) : Prop :=
+  RepI H ∧ |H| ≤ (maxFin : Int) ∧ RepI L ∧ |L| ≤ (maxFin : Int) ∧ H = rnI (H + L)
+
+theorem norm_up {t : TwoFloat} (ht : t.Valid) (hw : t.WF) {σ : Int} {m : Nat} (hσ : σ = 1 ∨ σ = -1)
+    (hov : t.hi.toInt.natAbs * 2 ^ m ≤ maxFin) :
+    NormPair (σ * 2 ^ m * t.hi.toInt) (σ * 2 ^ m * t.lo.toInt) := by
+  have hov' : |t.hi.toInt| * 2 ^ m ≤ (maxFin : Int) := by
+    rw [← Int.natCast_natAbs]; exact_mod_cast hov
+  exact scale_up_facts hσ ht.rnI_eq hw.1.repI hw.2.repI ht.abs_lo_le hov'
+
+theorem norm_down {t : TwoFloat} (ht : t.Valid) (hw : t.WF) {σ H L : Int} {m : Nat} (hσ : σ = 1 ∨ σ = -1)
+    (hH : t.hi.toInt = H * 2 ^ m) (hL : t.lo.toInt = L * 2 ^ m) : NormPair (σ * H) (σ * L) := by
+  have h1 := ht.rnI_eq
+  have h2 := hw.1.repI
+  have h3 := hw.2.repI
+  have h4 := hw.1.abs_toInt_le
+  have h5 := hw.2.abs_toInt_le
+  rw [hH, hL] at h1
+  rw [hH] at h2 h4
+  rw [hL] at h3 h5
+  exact scale_down_facts hσ h1 h2 h3 h4 h5
+
+/-- multiplying a valid pair by `vf = ±2^m` (`m ≥ 0`), no overflow -/
+theorem mul_up_data {t : TwoFloat} (ht : t.Valid) (hw : t.WF) {vf σ : Int} {m : Nat} (hσ : σ = 1 ∨ σ = -1)
+    (hfv : vf = σ * 2 ^ m * (unit : Int)) (hov : t.hi.toInt.natAbs * 2 ^ m ≤ maxFin) :
+    t.hi.toInt * vf = (σ * 2 ^ m * t.hi.toInt) * (unit : Int) ∧
+    t.lo.toInt * vf = (σ * 2 ^ m * t.lo.toInt) * (unit : Int) ∧
+    NormPair (σ * 2 ^ m * t.hi.toInt) (σ * 2 ^ m * t.lo.toInt) :=
+  ⟨by rw [hfv]; ring, by rw [hfv]; ring, norm_up ht hw hσ hov⟩
+
+/-- multiplying a valid pair by `vf = ±2^-m`, both words multiples of `2^m` (no underflow) -/
+theorem mul_down_data {t : TwoFloat} (ht : t.Valid) (hw : t.WF) {vf σ H L : Int} {m : Nat}
+    (hσ : σ = 1 ∨ σ = -1) (hfv : vf * 2 ^ m = σ * (unit : Int))
+    (hH : t.hi.toInt = H * 2 ^ m) (hL : t.lo.toInt = L * 2 ^ m) :
+    t.hi.toInt * vf = (σ * H) * (unit : Int) ∧ t.lo.toInt * vf = (σ * L) * (unit : Int) ∧
+    NormPair (σ * H) (σ * L) := by
+  refine ⟨?_, ?_, norm_down ht hw hσ hH hL⟩
+  · calc t.hi.toInt * vf = H * (vf * 2 ^ m) := by rw [hH]; ring
+      _ = σ * H * (unit : Int) := by rw [hfv]; ring
+  · calc t.lo.toInt * vf = L * (vf * 2 ^ m) := by rw [hL]; ring
+      _ = σ * L * (unit : Int) := by rw [hfv]; ring
+
+/-- dividing a valid pair by `vf = ±2^m` (`m ≥ 0`), both words multiples of `2^m` (no underflow) -/
+theorem div_down_data {t : TwoFloat} (ht : t.Valid) (hw : t.WF) {vf σ H L : Int} {m : Nat}
+    (hσ : σ = 1 ∨ σ = -1) (hfv : vf = σ * 2 ^ m * (unit : Int))
+    (hH : t.hi.toInt = H * 2 ^ m) (hL : t.lo.toInt = L * 2 ^ m) :
+    t.hi.toInt * (unit : Int) = (σ * H) * vf ∧ t.lo.toInt * (unit : Int) = (σ * L) * vf ∧
+    NormPair (σ * H) (σ * L) := by
+  have hss := sign_mul_self hσ
+  have e : ∀ z : Int, σ * z * (σ * 2 ^ m * (unit : Int)) = (σ * σ) * (z * 2 ^ m * (unit : Int)) :=
+    fun z => by ring
+  exact ⟨by rw [hfv, hH, e, hss, one_mul], by rw [hfv, hL, e, hss, one_mul], norm_down ht hw hσ hH hL⟩
+
+/-- dividing a valid pair by `vf = ±2^-m`, no overflow -/
+theorem div_up_data {t : TwoFloat} (ht : t.Valid) (hw : t.WF) {vf σ : Int} {m : Nat} (hσ : σ = 1 ∨ σ = -1)
+    (hfv : vf * 2 ^ m = σ * (unit : Int)) (hov : t.hi.toInt.natAbs * 2 ^ m ≤ maxFin) :
+    t.hi.toInt * (unit : Int) = (σ * 2 ^ m * t.hi.toInt) * vf ∧
+    t.lo.toInt * (unit : Int) = (σ * 2 ^ m * t.lo.toInt) * vf ∧
+    NormPair (σ * 2 ^ m * t.hi.toInt) (σ * 2 ^ m * t.lo.toInt) := by
+  have hss := sign_mul_self hσ
+  have e : ∀ z : Int, σ * 2 ^ m * z * vf = (σ * z) * (vf * 2 ^ m) := fun z => by ring
+  have e' : ∀ z : Int, σ * z * (σ * (unit : Int)) = (σ * σ) * (z * (unit : Int)) := fun z => by ring
+  exact ⟨by rw [e, hfv, e', hss, one_mul], by rw [e, hfv, e', hss, one_mul], norm_up ht hw hσ hov⟩
+
+/-! ## small facts used by the property files -/
+
+theorem WF_of_toInt_zero {x : F64} (h1 : x.is_finite = true) (h0 : x.toInt = 0) : x.WF := by
+  obtain ⟨s, n, rfl⟩ := is_finite_iff.mp h1
+  have : n = 0 := TwoFloat.toInt_eq_zero_iff.1 h0
+  subst this; exact WF_zero s
+
+theorem IsV.WF_zero {t : TwoFloat} (h : t.IsV 0 0) : t.WF :=
+  ⟨WF_of_toInt_zero h.1.1 h.1.2, WF_of_toInt_zero h.2.1 h.2.2⟩
+
+theorem NormPair.neg {H L : Int} (h : NormPair H L) : NormPair (-H) (-L) := by
+  obtain ⟨h1, h2, h3, h4, h5⟩ := h
+  refine ⟨h1.neg, by rwa [abs_neg], h3.neg, by rwa [abs_neg], ?_⟩
+  rw [← neg_add, rnI_neg, ← h5]
+
+/-- valid pairs with opposite values have opposite words -/
+theorem Valid.words_neg_of_V_add_eq_zero {a b : TwoFloat} (ha : a.Valid) (hb : b.Valid)
+    (h : a.V + b.V = 0) : b.hi.toInt = -a.hi.toInt ∧ b.lo.toInt = -a.lo.toInt := by
+  have e : b.V = -a.V := by omega
+  have h1 : b.hi.toInt = -a.hi.toInt := by rw [hb.hi_toInt, ha.hi_toInt, e, rnI_neg]
+  refine ⟨h1, ?_⟩
+  unfold TwoFloat.V at e; omega
+
+/-! ## long division `TwoFloat / TwoFloat` -/
+
+/-- one step of the long division: `r - y * (r.hi / y.hi)` -/
+def divStep (r y : TwoFloat) : TwoFloat :=
+  arithmetic.impl_Sub_rTwoFloat_for_rTwoFloat.sub r
+    (arithmetic.impl_Mul_rf64_for_rTwoFloat.mul y (F64.div r.hi y.hi))
+
+theorem div_tt_eq (x y : TwoFloat) :
+    arithmetic.impl_Div_rTwoFloat_for_rTwoFloat.div x y =
+      arithmetic.renorm3 (F64.div x.hi y.hi) (F64.div (divStep x y).hi y.hi)
+        (F64.div (divStep (divStep x y) y).hi y.hi) := rfl
+
+theorem divStep_WF (r y : TwoFloat) : (divStep r y).WF := sub_tt_WF _ _
+
+theorem div_tt_WF (x y : TwoFloat) : (arithmetic.impl_Div_rTwoFloat_for_rTwoFloat.div x y).WF :=
+  renorm3_WF _ _ _
+
+theorem repI_unit : RepI (unit : Int) := by
+  rw [repI_natCast, unit_eq]; exact rep_two_pow 1074
+
+theorem abs_unit_le_maxFin : |(unit : Int)| ≤ (maxFin : Int) := by
+  have h := C08.two_U_le_maxFin
+  have hp : (0 : Int) < (unit : Int) := Int.natCast_pos.2 unit_pos
+  rw [abs_of_pos hp]
+  change 2 * (unit : Int) ≤ _ at h
+  omega
+
+/-- a zero remainder stays zero, with a zero quotient digit -/
+theorem divStep_zero {r y : TwoFloat} {yh yl : Int} (hr : r.IsV 0 0) (hy : y.IsV yh yl) (hy0 : yh ≠ 0) :
+    IsVal (F64.div r.hi y.hi) 0 ∧ (divStep r y).IsV 0 0 := by
+  have hq : IsVal (F64.div r.hi y.hi) 0 :=
+    hr.1.div_exact hy.1 hy0 (by rw [zero_mul, zero_mul]) repI_zero abs_zero_le_maxFin
+  have hp := mul_tf_isV_fixed hy hq (H := 0) (L := 0) (by rw [mul_zero, zero_mul])
+    (by rw [mul_zero, zero_mul]) zero_facts
+  have hc : NormPair ((0 : Int) - 0) (0 - 0) := by rw [sub_zero]; exact zero_facts
+  have hs := sub_tt_isV_fixed hr hp hr.WF_zero (mul_tf_WF _ _) hc
+  rw [sub_zero] at hs
+  exact ⟨hq, hs⟩
+
+/-- one step against a one-word divisor `(vf, 0)` with an exact quotient digit `q = rh / vf`: the high word is
+consumed, the remainder is `(rl, 0)` -/
+theorem divStep_word {r y : TwoFloat} {rh rl vf q : Int} (hr : r.IsV rh rl) (hwr : r.WF) (hy : y.IsV vf 0)
+    (hf0 : vf ≠ 0) (hq : rh * (unit : Int) = q * vf) (hqr : RepI q) (hqm : |q| ≤ (maxFin : Int)) :
+    IsVal (F64.div r.hi y.hi) q ∧ (divStep r y).IsV rl 0 := by
+  have hqv : IsVal (F64.div r.hi y.hi) q := hr.1.div_exact hy.1 hf0 hq hqr hqm
+  have hc : NormPair rh 0 :=
+    ⟨hr.1.repI hwr.1, hr.1.abs_le hwr.1, repI_zero, abs_zero_le_maxFin,
+      by rw [add_zero, rnI_of_repI (hr.1.repI hwr.1)]⟩
+  have hp := mul_tf_isV_fixed hy hqv (H := rh) (L := 0) (by rw [hq]; ring) (by rw [zero_mul, zero_mul]) hc
+  have hs := sub_tt_isV_hi_cancel hr hp hwr (mul_tf_WF _ _) (by rw [sub_zero]; exact hr.2.repI hwr.2)
+    (by rw [sub_zero]; exact hr.2.abs_le hwr.2)
+  rw [sub_zero] at hs
+  exact ⟨hqv, hs⟩
+
+/-- the first step of `x / x`: quotient digit `1`, remainder zero -/
+theorem divStep_self {x : TwoFloat} (hx : x.Valid) (hw : x.WF) (h0 : x.hi.toInt ≠ 0) :
+    IsVal (F64.div x.hi x.hi) (unit : Int) ∧ (divStep x x).IsV 0 0 := by
+  have hxv := IsV.of_valid hx
+  have hq : IsVal (F64.div x.hi x.hi) (unit : Int) :=
+    hxv.1.div_exact hxv.1 h0 (mul_comm _ _) repI_unit abs_unit_le_maxFin
+  have hp := mul_tf_isV_fixed hxv hq rfl rfl (hx.facts hw)
+  have hc : NormPair (x.hi.toInt - x.hi.toInt) (x.lo.toInt - x.lo.toInt) := by
+    rw [sub_self, sub_self]; exact zero_facts
+  have hs := sub_tt_isV_fixed hxv hp hw (mul_tf_WF _ _) hc
+  rw [sub_self, sub_self] at hs
+  exact ⟨hq, hs⟩
+
+/-- `x / x = (1, 0)` -/
+theorem div_tt_self_isV {x : TwoFloat} (hx : x.Valid) (hw : x.WF) (h0 : x.hi.toInt ≠ 0) :
+    (arithmetic.impl_Div_rTwoFloat_for_rTwoFloat.div x x).IsV (unit : Int) 0 := by
+  rw [div_tt_eq]
+  have hxv := IsV.of_valid hx
+  obtain ⟨q1, r1⟩ := divStep_self hx hw h0
+  obtain ⟨q2, r2⟩ := divStep_zero r1 hxv h0
+  obtain ⟨q3, _⟩ := divStep_zero r2 hxv h0
+  exact renorm3_isV q1 q2 q3 (div_WF _ _) (div_WF _ _) (div_WF _ _)
+    (by rw [add_zero, rnI_of_repI repI_unit])
+
+/-- `(±0, ±0) / y = (0, 0)` for a finite `y` with a non-zero high word -/
+theorem div_tt_zero_isV {x y : TwoFloat} {yh yl : Int} (hx : x.IsV 0 0) (hy : y.IsV yh yl) (hy0 : yh ≠ 0) :
+    (arithmetic.impl_Div_rTwoFloat_for_rTwoFloat.div x y).IsV 0 0 := by
+  rw [div_tt_eq]
+  obtain ⟨q1, r1⟩ := divStep_zero hx hy hy0
+  obtain ⟨q2, r2⟩ := divStep_zero r1 hy hy0
+  obtain ⟨q3, _⟩ := divStep_zero r2 hy hy0
+  exact renorm3_isV q1 q2 q3 (div_WF _ _) (div_WF _ _) (div_WF _ _) zero_facts.2.2.2.2
+
+/-- `x / (vf, 0)` when both word quotients `H = xh / vf`, `L = xl / vf` are exact and `(H, L)` is normalised -/
+theorem div_tt_word_isV {x y : TwoFloat} {xh xl vf H L : Int} (hx : x.IsV xh xl) (hwx : x.WF)
+    (hy : y.IsV vf 0) (hf0 : vf ≠ 0)
+    (hH : xh * (unit : Int) = H * vf) (hL : xl * (unit : Int) = L * vf) (hc : NormPair H L) :
+    (arithmetic.impl_Div_rTwoFloat_for_rTwoFloat.div x y).IsV H L := by
+  rw [div_tt_eq]
+  obtain ⟨hHr, hHm, hLr, hLm, hfix⟩ := hc
+  obtain ⟨q1, r1⟩ := divStep_word hx hwx hy hf0 hH hHr hHm
+  obtain ⟨q2, r2⟩ := divStep_word r1 (divStep_WF _ _) hy hf0 hL hLr hLm
+  obtain ⟨q3, _⟩ := divStep_zero r2 hy hf0
+  exact renorm3_isV q1 q2 q3 (div_WF _ _) (div_WF _ _) (div_WF _ _) hfix
+
+/-! ## `f64 - TwoFloat` and the long division `f64 / TwoFloat` -/
+
+theorem sub_ft_eq (f : F64) (x : TwoFloat) :
+    arithmetic.impl_Sub_rTwoFloat_for_rf64.sub f x
+      = arithmetic.fast_two_sum (TwoFloat.new_sub f x.hi).hi (F64.sub (TwoFloat.new_sub f x.hi).lo x.lo) := rfl
+
+theorem sub_ft_WF (f : F64) (x : TwoFloat) : (arithmetic.impl_Sub_rTwoFloat_for_rf64.sub f x).WF :=
+  fast_two_sum_WF _ _
+
+/-- the exact-case rule for `f64 - TwoFloat`: if `S = f - x.hi` is representable the result is the normalisation
+of `(S, -x.lo)` -/
+theorem sub_ft_isV {x : TwoFloat} {f : F64} {xh xl vf : Int} (hf : IsVal f vf) (hx : x.IsV xh xl)
+    (hwf : f.WF) (hwx : x.WF)
+    (hS : RepI (vf - xh)) (hSm : |vf - xh| ≤ (maxFin : Int))
+    (hov : |rnI (vf - xh + -xl)| ≤ (maxFin : Int))
+    (hz : RepI (rnI (vf - xh + -xl) - (vf - xh)))
+    (hzm : |rnI (vf - xh + -xl) - (vf - xh)| ≤ (maxFin : Int)) :
+    (arithmetic.impl_Sub_rTwoFloat_for_rf64.sub f x).IsV (rnI (vf - xh + -xl))
+      (vf - xh + -xl - rnI (vf - xh + -xl)) := by
+  rw [sub_ft_eq]
+  have hs := new_sub_isV_exact hf hx.1 hwf hwx.1 hS hSm
+  have hv : IsVal (F64.sub (TwoFloat.new_sub f x.hi).lo x.lo) (-xl) := by
+    have := hs.2.sub_exact hx.2 (by rw [zero_sub]; exact (hx.2.repI hwx.2).neg)
+      (by rw [zero_sub, abs_neg]; exact hx.2.abs_le hwx.2)
+    rwa [zero_sub] at this
+  exact f2s_isV_of hs.1 hv (new_sub_WF _ _).1 (sub_WF _ _) hov hz hzm
+
+/-- `f - (f, 0) = (0, 0)` (values) -/
+theorem sub_ft_cancel {x : TwoFloat} {f : F64} {vf : Int} (hf : IsVal f vf) (hx : x.IsV vf 0)
+    (hwf : f.WF) (hwx : x.WF) : (arithmetic.impl_Sub_rTwoFloat_for_rf64.sub f x).IsV 0 0 := by
+  have e : vf - vf + -0 = 0 := by ring
+  have := sub_ft_isV hf hx hwf hwx (by rw [sub_self]; exact repI_zero)
+    (by rw [sub_self]; exact abs_zero_le_maxFin) (by rw [e, rnI_zero]; exact abs_zero_le_maxFin)
+    (by rw [e, rnI_zero, sub_self, sub_zero]; exact repI_zero)
+    (by rw [e, rnI_zero, sub_self, sub_zero]; exact abs_zero_le_maxFin)
+  rwa [e, rnI_zero, sub_zero] at this
+
+theorem div_ft_eq (f : F64) (y : TwoFloat) :
+    arithmetic.impl_Div_rTwoFloat_for_rf64.div f y =
+      arithmetic.renorm3 (F64.div f y.hi)
+        (F64.div (arithmetic.impl_Sub_rTwoFloat_for_rf64.sub f
+          (arithmetic.impl_Mul_rf64_for_rTwoFloat.mul y (F64.div f y.hi))).hi y.hi)
+        (F64.div (divStep (arithmetic.impl_Sub_rTwoFloat_for_rf64.sub f
+          (arithmetic.impl_Mul_rf64_for_rTwoFloat.mul y (F64.div f y.hi))) y).hi y.hi) := rfl
+
+theorem div_ft_WF (f : F64) (y : TwoFloat) : (arithmetic.impl_Div_rTwoFloat_for_rf64.div f y).WF :=
+  renorm3_WF _ _ _
+
+/-- `(±0) / y = (0, 0)` for a finite `y` with a non-zero high word -/
+theorem div_ft_zero_isV {f : F64} {y : TwoFloat} {yh yl : Int} (hf : IsVal f 0) (hy : y.IsV yh yl)
+    (hy0 : yh ≠ 0) : (arithmetic.impl_Div_rTwoFloat_for_rf64.div f y).IsV 0 0 := by
+  rw [div_ft_eq]
+  have q1 : IsVal (F64.div f y.hi) 0 :=
+    hf.div_exact hy.1 hy0 (by rw [zero_mul, zero_mul]) repI_zero abs_zero_le_maxFin
+  have hp := mul_tf_isV_fixed hy q1 (H := 0) (L := 0) (by rw [mul_zero, zero_mul])
+    (by rw [mul_zero, zero_mul]) zero_facts
+  have r1 := sub_ft_cancel hf hp (WF_of_toInt_zero hf.1 hf.2) (mul_tf_WF _ _)
+  obtain ⟨q2, r2⟩ := divStep_zero r1 hy hy0
+  obtain ⟨q3, _⟩ := divStep_zero r2 hy hy0
+  exact renorm3_isV q1 q2 q3 (div_WF _ _) (div_WF _ _) (div_WF _ _) zero_facts.2.2.2.2
+
+/-- `f / (vf', 0)` with an exact representable quotient `H`: the result is `(H, 0)` -/
+theorem div_ft_word_isV {f : F64} {y : TwoFloat} {vf vy H : Int} (hf : IsVal f vf) (hwf : f.WF)
+    (hy : y.IsV vy 0) (hy0 : vy ≠ 0) (hH : vf * (unit : Int) = H * vy) (hHr : RepI H)
+    (hHm : |H| ≤ (maxFin : Int)) :
+    (arithmetic.impl_Div_rTwoFloat_for_rf64.div f y).IsV H 0 := by
+  rw [div_ft_eq]
+  have q1 : IsVal (F64.div f y.hi) H := hf.div_exact hy.1 hy0 hH hHr hHm
+  have hc : NormPair vf 0 :=
+    ⟨hf.repI hwf, hf.abs_le hwf, repI_zero, abs_zero_le_maxFin, by rw [add_zero, rnI_of_repI (hf.repI hwf)]⟩
+  have hp := mul_tf_isV_fixed hy q1 (H := vf) (L := 0) (by rw [hH]; ring) (by rw [zero_mul, zero_mul]) hc
+  have r1 := sub_ft_cancel hf hp hwf (mul_tf_WF _ _)
+  obtain ⟨q2, r2⟩ := divStep_zero r1 hy hy0
+  obtain ⟨q3, _⟩ := divStep_zero r2 hy hy0
+  exact renorm3_isV q1 q2 q3 (div_WF _ _) (div_WF _ _) (div_WF _ _)
+    (by rw [add_zero, rnI_of_repI hHr])
 
 end TwoFloat
